@@ -204,6 +204,12 @@ impl LinkState {
                     self.trace.push(Ev::WData { off, took: n });
                     return Some(Ok(n));
                 },
+                Some(WriteEv::AllBut(k)) => {
+                    let n = off.saturating_sub(k).max(1).min(off);
+                    self.out.extend_from_slice(&buf[..n]);
+                    self.trace.push(Ev::WData { off, took: n });
+                    return Some(Ok(n));
+                },
                 Some(WriteEv::Pending) => {
                     if self.is_async {
                         self.trace.push(Ev::WPending { off });
